@@ -99,7 +99,8 @@ def cause_of(script):
 
 
 def job(j):
-    cfg, mode, bound, letters, conn_letters, max_exec = j
+    cfg, mode, bound, letters, conn_letters, max_exec = j[:6]
+    root = tuple(j[6]) if len(j) > 6 else ()
     st = Stats()
     vio = {}
 
@@ -117,7 +118,7 @@ def job(j):
             vio.setdefault(k, []).append((ctx.choices, cause))
 
     if mode == 'product':
-        n, capped = explore(run, depth=bound, on_exec=on_exec, max_exec=max_exec)
+        n, capped = explore(run, depth=bound - len(root), on_exec=on_exec, max_exec=max_exec, root_prefix=root)
     else:
         n, capped = explore(run, deviations=bound, depth=3 * (cfg['R'] + 1), on_exec=on_exec, max_exec=max_exec)
     st.capped = capped
@@ -195,6 +196,13 @@ def run(tier, seed, rep):
             letters = alphabet(tr)
             jobs.append((cfg, 'deviations', 3 if tier == 'thorough' else 2, letters,
                          CONNECT if tr == 'tcp' else ['ok'], None))
+    if tier == 'thorough':
+        # complete product for R=3 as well (20^4 scripts per configuration), split by the first letter
+        for tr in ('udp', 'tcp'):
+            for ka in (False, True):
+                cfg = dict(transport=tr, ka=ka, T=1, R=3, cmd='read')
+                for first in range(len(alphabet(tr))):
+                    jobs.append((cfg, 'product', 4, alphabet(tr), ['ok'], None, (first,)))
     total = Stats()
     per_cfg = []
     for j, st in zip(jobs, pmap(job, jobs)):
@@ -202,13 +210,22 @@ def run(tier, seed, rep):
         per_cfg.append(dict(cfg=j[0], mode=j[1], bound=j[2], executions=st.executions, states=len(st.states),
                             outcomes={str(k): v for k, v in sorted(st.outcomes.items(), key=str)}))
     rep.add_many(total.violations)
+    conf = None
+    if tier == 'thorough':
+        # binding the kernel model to reality: the same traces on real loopback sockets (warning only, never a verdict)
+        try:
+            from .. import conform
+            n_c, agree, mism = conform.run_all()
+            conf = dict(traces_replayed_on_real_loopback=n_c, agreeing_with_kernel_model=agree, persistent_mismatches=mism)
+        except Exception as e:  # noqa: BLE001
+            conf = dict(error=f'{type(e).__name__}: {e}')
     cov = dict(states=len(total.states), transitions=len(total.edges), executions=total.executions,
                traces_validated_against_impl=total.executions, choice_points=total.choice_points,
                distinct_outcome_classes=len(total.outcomes), exhaustive=not total.capped,
                bound='product over all choice points (depth R+1 transmissions + connect outcomes) for R<=2; '
                      'deviation bound for R=3', max_depth=total.max_depth,
                alphabet=dict(udp=alphabet('udp'), tcp=alphabet('tcp'), connect=CONNECT),
-               per_config=per_cfg, samples=total.samples[:6],
+               per_config=per_cfg, samples=total.samples[:6], kernel_conformance=conf,
                explanation='every explored trace is an execution of the real goodwe protocol objects on the real '
                            'CPython selector loop/transports; only sockets, selector and clock are modelled')
     return dict(level='model_checking', coverage=cov,
